@@ -142,10 +142,13 @@ class Check:
 
     # ------------------------------------------------------------- finish
     def finish(self, idx=None):
+        # a floor shortfall that no finding of the same rule explains means the rule lost its anchors.  It never hides what
+        # the other rules found: their violations are reported (exit 1) and the shortfall is listed as ANALYSIS-ERROR; with
+        # no violation at all the run ends as analysis-broken (exit 2), never as a pass.
         for rule, matched, minimum, what in self.floors:
             if matched < minimum and not any(f.rule == rule for f in self.findings) and not self.broken:
-                raise AnalysisError('%s %s: instance floor not met (%d < %d) %s — the rule would pass vacuously'
-                                    % (self.pid, rule, matched, minimum, what))
+                self.broken.append('%s %s: instance floor not met (%d < %d) %s — the rule would pass vacuously'
+                                   % (self.pid, rule, matched, minimum, what))
         known = [k for k in load_known() if k.get('property') == self.pid]
         kmap = {}
         for k in known:
